@@ -59,6 +59,36 @@ def c17(ck, replay=None):
                                   constraint='Progress', postcondition='Report', deadlock=False), trs))
     ck.validate_groups('IterableQueue over queue.Queue: suppliers/consumers/renew under detsched', 'IterableQueueTrace',
                        cfgs, sig_of=lambda t, v: {'stop': 'stop_at' in t['sc']})
+    # L2 (spec -> code): TLC behaviours (simulation + the shortest path to "two consumers both believe they are the first
+    # to see the bottom") steer the real suppliers / consumers; the executions are validated like the others
+    consts = dict(M=2, NC=2, K=1, Rounds=2, QBound=0)
+    l2cfg = iq_cfg(2, 2, 1, 2, 0, [])
+    res, behs = tlc.simulate('IterableQueue', l2cfg, num=200 if thorough else 40, depth=120, seed=1 + ck.seed)
+    behs = list(behs)
+    for goal in ('Trap_TwoSeeFull', 'Trap_Round2'):
+        behs.append(ck.trap(goal, 'IterableQueue', iq_cfg(2, 2, 1, 2, 0, [goal])))
+        behs.append(behs[-1])       # the corner behaviours are steered twice (different tie-breaking seeds)
+    l2items = []
+    for k, b in enumerate(behs):
+        l2items.append({'id': k + 1, 'seed': k, **IB.behaviour_to_item(b, consts)})
+    out2 = ck.run_binder('iterqueue', l2items, timeout=900)
+    ck.evaluations += int(out2.get('n_exec', 0))
+    for h in out2.get('hangs', []):
+        ck.violation({'leg': 'L2', 'kind': 'hang-or-crash', 'status': h['status'], 'detail': h.get('detail'),
+                      'waitmap': h.get('waitmap'), 'exc': h.get('exc'), 'item': {'sc': h['sc'], 'seed': h['seed']},
+                      'events': h['ev'][-80:]},
+                     sig={'leg': 'L2', 'kind': 'hang', 'status': h['status']})
+    trs = out2.get('traces', [])
+    before = ck.traces
+    ck.validate('TLC behaviours steered into IterableQueue (simulation + trap goals)', 'IterableQueueTrace',
+                tlc.cfg_text(spec='TraceSpec', constants=dict(M=2, NC=2, K=1, Rounds=2, QBound=0, ExtraOnce=True,
+                                                              MayStop=False),
+                             constraint='Progress', postcondition='Report', deadlock=False), trs,
+                sig_of=lambda t, v: {'stop': False})
+    ck.replays += ck.traces - before
+    ck.traces = before
+    ck.legs[-1].update(leg='L2', behaviours=len(behs), replayed=len(trs), exact=sum(1 for t in trs if t['l2']['exact']),
+                       steps=sum(t['l2']['steps'] for t in trs), followed=sum(t['l2']['followed'] for t in trs))
     ck.assumptions += ['thread queues under detsched; multiprocessing queues are not scheduled (same code path in IterableQueue)']
     ck.finish_rc = ck.finish(rule='m suppliers x n consumers x items x rounds x queue bound x schedule seeds; every queue '
                              'operation logged under the queue mutex; stop scenarios with exact virtual time')
